@@ -429,6 +429,7 @@ class Session:
     def __init__(self, binary, workdir, isolate=False, keep_answers=False, timeout=60):
         self.binary, self.workdir, self.isolate, self.keep, self.timeout = binary, workdir, isolate, keep_answers, timeout
         self.A = self.B = None
+        self.user = None
 
     def start(self, which):
         if which == "A":
@@ -535,6 +536,36 @@ class Session:
         ev.append({"a": "Query", "kind": "closedFileSymbols", "incr": digest(ra), "fresh": digest(rb)})
         if self.keep:
             full.append({"after_event": len(ev), "kind": "closedFileSymbols", "disk_text": text, "incr": ra, "fresh": rb})
+        # ... and a document that IS open and calls a function of that file: its pulled diagnostics depend on the other
+        # file.  The incremental server is asked the way a client asks -- with the resultId of its previous report, and
+        # an answer `unchanged` stands for that previous report.
+        if self.user is not None:
+            uuri, utext = self.user["uri"], self.user["text"]
+            p = {"textDocument": {"uri": uuri}}
+            if self.user.get("rid") is not None:
+                p["previousResultId"] = self.user["rid"]
+            ia = self.call("incr", "Query:dependentDiagnostics", lambda: A.send_request("textDocument/diagnostic", p))
+            self.call("fresh", "Fresh", lambda: B.notify("textDocument/didOpen", {"textDocument": {
+                "uri": uuri, "languageId": "structured-text", "version": 1, "text": utext}}))
+            ib = self.call("fresh", "Query:dependentDiagnostics", lambda: B.send_request("textDocument/diagnostic", {"textDocument": {"uri": uuri}}))
+            xa = self.call("incr", "Query:dependentDiagnostics", lambda: A.wait(ia, self.timeout))
+            xb = self.call("fresh", "Query:dependentDiagnostics", lambda: B.wait(ib, self.timeout))
+            res = xa.get("result") if isinstance(xa.get("result"), dict) else {}
+            if res.get("kind") == "unchanged":
+                items = self.user.get("items")
+            else:
+                items = res.get("items")
+                self.user["items"] = items
+            if res.get("resultId") is not None:
+                self.user["rid"] = res["resultId"]
+            rbres = xb.get("result") if isinstance(xb.get("result"), dict) else {}
+            da, db = digest(norm(items)), digest(norm(rbres.get("items")))
+            ev.append({"a": "Query", "kind": "dependentDiagnostics", "incr": da, "fresh": db})
+            if self.keep:
+                full.append({"after_event": len(ev), "kind": "dependentDiagnostics", "disk_text": text, "incr": answer_of(xa), "fresh": answer_of(xb),
+                             "incr_effective_items": items})
+            if not self.isolate:
+                self.call("fresh", "forget", lambda: self.forget(B, uuri))
         if self.isolate:
             self.stop("B")
         else:
@@ -559,6 +590,7 @@ class Session:
         # ... and next to it lies a file that is never opened: what the server knows about it comes from the disk, and
         # it is told about every rewrite.  The file keeps its length in most rewrites (one digit of a name changes).
         dep_path = os.path.join(os.path.dirname(disk_path), "dep.st") if disk_path is not None else None
+        self.user = None
         try:
             if self.A is None:
                 self.call("incr", "start", lambda: self.start("A"))
@@ -568,6 +600,15 @@ class Session:
             ev.append({"a": "Open", "text": cps(s["open"])})
             model = s["open"]
             self.observe(uri, model, kinds, ev, full)
+            if dep_path is not None:
+                k0 = (s["id"] + 1) % 10
+                utext = f"PROGRAM ZqUser{s['id']}\nVAR r : INT; END_VAR\nr := zqdep{k0}();\nEND_PROGRAM\n"
+                upath = os.path.join(os.path.dirname(disk_path), "user.st")
+                with open(upath, "w", encoding="utf-8", newline="") as f:
+                    f.write(utext)
+                self.user = {"uri": "file://" + upath, "text": utext, "rid": None, "items": None}
+                self.call("incr", "Open", lambda: A.notify("textDocument/didOpen", {"textDocument": {
+                    "uri": self.user["uri"], "languageId": "structured-text", "version": 1, "text": utext}}))
             for n, st in enumerate(s["steps"]):
                 changes = []
                 # Every other script sends the deprecated `rangeLength` as well (vscode-languageclient does): the
@@ -613,6 +654,13 @@ class Session:
                 except ValueError:
                     break           # a line that does not exist: no defined meaning, nothing more to observe
                 self.observe(uri, model, kinds, ev, full)
+            if self.user is not None:
+                self.call("incr", "forget", lambda: self.forget(A, self.user["uri"]))
+                try:
+                    os.unlink(self.user["uri"][len("file://"):])
+                except OSError:
+                    pass
+                self.user = None
             if dep_path is not None and os.path.exists(dep_path):
                 os.unlink(dep_path)
                 self.call("incr", "Watched", lambda: A.notify("workspace/didChangeWatchedFiles", {"changes": [{"uri": "file://" + dep_path, "type": 3}]}))
